@@ -281,6 +281,8 @@ def reuse_case(ctx, case):
         # the generator only reuses names of *closed* scopes; anything else is our bug
         raise AssertionError("generator produced a program the scope model rejects: %r\n%s" % (errs, case.source()))
     c01.check_case(ctx, case, nontrivial=(lambda tr: reused and tr.get("op", 0) >= 1), exact_floats=True)
+    # a name redeclared in a sibling scope is a new variable for the optimiser as well
+    c01.check_case(ctx, case, nontrivial=(lambda tr: False), exact_floats=True, optimize=True)
 
 
 def across_functions_case(ctx, case):
